@@ -238,6 +238,7 @@ type imgState struct {
 	img   *memory.Database
 	depth int    // interruptions so far
 	trace string // how it was reached
+	taint bool   // reached through the half-pruned no-op-prune case already reported under its own key
 }
 
 type bCtx struct {
@@ -256,17 +257,66 @@ func (sp shapeSpec) cutoff() int {
 	return tip - sp.PruneR
 }
 
-// pruneView: which blocks must still be intact in an image and whether the by-hash lookups may be missing. Once the
-// prune flag was recorded (LastTargetVersion bit 1) the blocks below the cutoff may be gone; until its applied bit is
-// set the reverse-lookup buckets may be wiped (the migration rebuilds them at its end).
-func pruneView(sp shapeSpec, md migration.SchemaMetadata) (lower int, relax, done bool) {
-	lower = sp.Pruned
-	if sp.PruneR >= 0 && md.LastTargetVersion.Has(1) {
-		lower = max(lower, sp.cutoff())
-		done = md.CurrentVersion.Has(1)
-		relax = !done
+// Prune classes of a chain's final image.
+const (
+	clsNone   = "no-prune"     // --prune-mode never recorded
+	clsPruned = "pruned-with-R" // history pruned below cutoff() (the shape's retained value R)
+	clsNoop   = "no-op-prune"  // prune applied with a retention window longer than the chain: nothing deleted
+)
+
+// pruneInfo: what an image says about the history-prune migration.
+type pruneInfo struct {
+	recorded bool // LastTargetVersion has bit 1
+	done     bool // applied bit 1
+	token    bool // a historyprunner intermediate-state token (cutoff pinned) is stored
+	pinned   int  // the cutoff in the token
+	started  bool // its first commit happened: blocks below the cutoff deleted, reverse lookups wiped
+	lower    int  // blocks below may legitimately be gone
+	relax    bool // by-hash lookups may legitimately be missing (wiped at its start, rebuilt at its end)
+	class    string // of an image with the bit applied (or never recorded)
+}
+
+// pruneState derives everything from the image itself: "started" = the oldest block with commitments is above 0
+// (the migration's first commit deletes the cold range and wipes the reverse lookups atomically).
+func pruneState(sp shapeSpec, img *memory.Database, md migration.SchemaMetadata) (pi pruneInfo) {
+	pi.lower, pi.class = sp.Pruned, clsNone
+	if sp.PruneR < 0 {
+		return
+	}
+	pi.recorded, pi.done = md.LastTargetVersion.Has(1), md.CurrentVersion.Has(1)
+	if tok, err := migration.GetIntermediateState(img, 1); err == nil && len(tok) == 24 {
+		pi.token, pi.pinned = true, int(binary.BigEndian.Uint64(tok[16:24]))
+	}
+	if ks := faultdb.Keys(img, []byte{byte(db.BlockCommitments)}); len(ks) > 0 && len(ks[0]) == 9 {
+		pi.started = binary.BigEndian.Uint64([]byte(ks[0][1:])) > 0
+	}
+	if pi.started || pi.token {
+		pi.lower = max(pi.lower, sp.cutoff())
+	}
+	pi.relax = (pi.started || pi.token) && !pi.done
+	switch {
+	case pi.done && pi.started:
+		pi.class = clsPruned
+	case pi.done:
+		pi.class = clsNoop
 	}
 	return
+}
+
+// expectedClass: the class of the final image a COMPLETED run must reach from an image, given this start's flags.
+func expectedClass(sp shapeSpec, from pruneInfo, cfg startCfg) string {
+	switch {
+	case !cfg.Prune:
+		return clsNone
+	case from.done:
+		return from.class // nothing to do any more
+	case from.token:
+		return clsPruned // cutoff pinned: configuration changes are documented to be ignored until completion
+	case cfg.Retained == uint64(sp.PruneR) && sp.cutoff() > 0:
+		return clsPruned
+	default:
+		return clsNoop // window longer than the chain and nothing pinned: every block stays
+	}
 }
 
 // checkImage: invariants that must hold in EVERY durable image (crash images included).
@@ -274,7 +324,11 @@ func (bc *bCtx) checkImage(sp shapeSpec, c *chain, img *memory.Database, trace s
 	md, err := migration.GetSchemaMetadata(img)
 	applied0 := err == nil && md.CurrentVersion.Has(0)
 	applied3 := err == nil && md.CurrentVersion.Has(3)
-	lower, relax, pruneDone := pruneView(sp, md)
+	pi := pruneState(sp, img, md)
+	lower, relax := pi.lower, pi.relax
+	if pi.token && pi.pinned != sp.cutoff() {
+		bc.r.Violate("b/prune-token-pins-unexpected-cutoff", map[string]any{"shape": sp.Name, "trace": trace, "pinned": pi.pinned, "want": sp.cutoff()})
+	}
 	if applied0 && oldLayoutRemains(img) {
 		bc.r.Violate("b/applied-bit-with-old-layout-data blocktransactions", map[string]any{"shape": sp.Name, "trace": trace})
 	}
@@ -288,7 +342,10 @@ func (bc *bCtx) checkImage(sp shapeSpec, c *chain, img *memory.Database, trace s
 			bc.contentViolation("applied-bit-but-content-wrong statedifflength", sp, c, trace, msg)
 		}
 	}
-	if pruneDone {
+	if pi.done && pi.token {
+		bc.r.Violate("b/applied-bit-with-resume-token historyprunner", map[string]any{"shape": sp.Name, "trace": trace})
+	}
+	if pi.done && pi.class == clsPruned {
 		if msg := c.checkPruned(img, sp.cutoff()); msg != "" {
 			bc.r.Violate("b/applied-bit-but-content-wrong historyprunner", map[string]any{"shape": sp.Name, "trace": trace, "first_discrepancy": msg})
 		}
@@ -343,9 +400,10 @@ type bShape struct {
 	sp       shapeSpec
 	c        *chain
 	mu       sync.Mutex
-	seen     map[[32]byte]bool
+	seen     map[[32]byte]uint8 // bit 0: seen untainted, bit 1: seen tainted
 	next     []imgState
-	refFinal map[bool][32]byte // one final image per chain and per 'prune applied'
+	refFinal map[string][32]byte // one final image per chain and per prune class
+	stripped map[string][32]byte // the same without the schema-metadata key (no-op prune == no prune modulo metadata)
 	images   int
 }
 
@@ -378,18 +436,22 @@ func memGuard(r *ev.Run) bool {
 	return false
 }
 
-func (sh *bShape) add(img *memory.Database, depth int, trace string) {
+func (sh *bShape) add(img *memory.Database, depth int, trace string, taint bool) {
 	if memGuard(sh.r) {
 		return
 	}
 	h := faultdb.Hash(img)
 	sh.mu.Lock()
 	defer sh.mu.Unlock()
-	if sh.seen[h] {
+	bit := uint8(1)
+	if taint {
+		bit = 2
+	}
+	if sh.seen[h]&1 != 0 || sh.seen[h]&bit != 0 {
 		return
 	}
-	sh.seen[h] = true
-	sh.next = append(sh.next, imgState{img: img, depth: depth, trace: trace})
+	sh.seen[h] |= bit
+	sh.next = append(sh.next, imgState{img: img, depth: depth, trace: trace, taint: taint})
 }
 
 type bItem struct {
@@ -419,7 +481,7 @@ func exploreShapeGroup(bc *bCtx, specs []shapeSpec, permsL0, permsDeep [][4]int,
 	r, t := bc.r, bc.t
 	var shapes []*bShape
 	for _, sp := range specs {
-		sh := &bShape{r: r, sp: sp, c: mkChain(sp.Shape), seen: map[[32]byte]bool{}, refFinal: map[bool][32]byte{}}
+		sh := &bShape{r: r, sp: sp, c: mkChain(sp.Shape), seen: map[[32]byte]uint8{}, refFinal: map[string][32]byte{}, stripped: map[string][32]byte{}}
 		base := sh.c.oldLayoutDB(0)
 		if sp.Pruned > 0 {
 			// A pruned database cannot be in the per-transaction layout (pruning came later). Build it from the
@@ -446,7 +508,7 @@ func exploreShapeGroup(bc *bCtx, specs []shapeSpec, permsL0, permsDeep [][4]int,
 			}
 			must(migration.WriteSchemaMetadata(base, migration.SchemaMetadata{CurrentVersion: 0b0001, LastTargetVersion: 0b1001}))
 		}
-		sh.add(base, 0, "old-layout")
+		sh.add(base, 0, "old-layout", false)
 		shapes = append(shapes, sh)
 	}
 	for depth := 0; ; depth++ {
@@ -463,7 +525,8 @@ func exploreShapeGroup(bc *bCtx, specs []shapeSpec, permsL0, permsDeep [][4]int,
 			for _, st := range level {
 				cfgs := []startCfg{{}}
 				if sh.sp.PruneR >= 0 { // every process start chooses the --prune-mode flag freely
-					cfgs = []startCfg{{false, uint64(sh.sp.PruneR)}, {true, uint64(sh.sp.PruneR)}}
+					// ... and, when on, its retained value: the shape's R or a window longer than the chain
+					cfgs = []startCfg{{false, uint64(sh.sp.PruneR)}, {true, uint64(sh.sp.PruneR)}, {true, uint64(len(sh.sp.Shape) + 100)}}
 				}
 				for ci, cfg := range cfgs {
 					for i, pm := range perms {
@@ -492,8 +555,19 @@ func exploreShapeGroup(bc *bCtx, specs []shapeSpec, permsL0, permsDeep [][4]int,
 func exploreItem(bc *bCtx, it bItem, maxDepth int, failInj bool) {
 	r, t := bc.r, bc.t
 	sh, st, pm, sp, c, cfg := it.sh, it.st, it.pm, it.sh.sp, it.sh.c, it.cfg
-	if it.first {
+	if it.first && !st.taint {
 		bc.checkImage(sp, c, st.img, st.trace)
+	}
+	md0, _ := migration.GetSchemaMetadata(st.img)
+	from := pruneState(sp, st.img, md0)
+	// The one prune-related defect class of the unchanged tree that a raised retained value exposes: after an ABRUPT
+	// interruption (no token persisted) of a started prune, a start whose window exceeds the chain is a no-op that sets
+	// the applied bit on the half-pruned database. It is reported once under its own key; the images behind it are
+	// tainted (explored for crashes/refusals, but their content is not judged again).
+	halfPruned := cfg.Prune && cfg.Retained != uint64(max(sp.PruneR, 0)) && from.started && !from.token && !from.done
+	taint := st.taint || halfPruned
+	if taint {
+		r.Add("b_tainted_items", 1)
 	}
 	runName := fmt.Sprintf("run(order=%v)", pm)
 	if sp.PruneR >= 0 {
@@ -548,9 +622,24 @@ func exploreItem(bc *bCtx, it bItem, maxDepth int, failInj bool) {
 	if md.CurrentVersion != want {
 		r.Violate("b/run-returned-nil-but-not-applied", map[string]any{"shape": sp.Name, "trace": tr, "version": md.CurrentVersion.String(), "want": want.String()})
 	}
-	lower, _, pruneDone := pruneView(sp, md)
-	msg := c.checkContent(fin, lower, true)
-	if msg == "" && pruneDone {
+	wantCls := expectedClass(sp, from, cfg)
+	got := pruneState(sp, fin, md)
+	if got.class != wantCls && (halfPruned || !st.taint) {
+		key := "b/prune-class-wrong: want " + wantCls + " got " + got.class
+		if halfPruned {
+			key = "b/no-op-prune-applied-on-half-pruned-database (retained value raised after an abrupt interruption; cutoff only persisted on graceful cancel)"
+		}
+		r.Violate(key, map[string]any{"shape": sp.Name, "trace": tr, "interruptions_before": historyKinds(st.trace)})
+	}
+	lower := sp.Pruned
+	if wantCls == clsPruned {
+		lower = max(lower, sp.cutoff())
+	}
+	msg := ""
+	if !taint {
+		msg = c.checkContent(fin, lower, true)
+	}
+	if msg == "" && wantCls == clsPruned && !taint {
 		if pm := c.checkPruned(fin, sp.cutoff()); pm != "" {
 			r.Violate("b/final-content-differs-from-original: history-prune result wrong", map[string]any{"shape": sp.Name, "trace": tr, "first_discrepancy": pm})
 		}
@@ -559,17 +648,32 @@ func exploreItem(bc *bCtx, it bItem, maxDepth int, failInj bool) {
 		r.Outcome("b: final content wrong (" + classify(msg) + ")")
 		bc.contentViolation("final-content-differs-from-original (core.Get* accessors after a Run that returned nil)", sp, c, tr, msg)
 	} else {
-		r.Outcome("b: completed, content equal")
-		sh.mu.Lock()
-		if _, ok := sh.refFinal[cfg.Prune]; !ok {
-			sh.refFinal[cfg.Prune] = fh
+		if taint {
+			r.Outcome("b: completed on a tainted (already reported) database")
+			goto afterFinal
 		}
-		same := fh == sh.refFinal[cfg.Prune]
+		r.Outcome("b: completed, content equal [" + wantCls + "]")
+		strip := fin.Copy()
+		must(strip.Delete(db.SchemaMetadata.Key()))
+		sth := faultdb.Hash(strip)
+		sh.mu.Lock()
+		if _, ok := sh.refFinal[wantCls]; !ok {
+			sh.refFinal[wantCls] = fh
+			sh.stripped[wantCls] = sth
+		}
+		same := fh == sh.refFinal[wantCls]
+		// a no-op prune leaves exactly the no-prune final database, schema metadata apart
+		other, has := sh.stripped[map[string]string{clsNoop: clsNone, clsNone: clsNoop}[wantCls]]
+		sameStripped := !has || wantCls == clsPruned || other == sth
 		sh.mu.Unlock()
 		if !same {
-			r.Violate("b/final-image-depends-on-interruption-pattern", map[string]any{"shape": sp.Name, "trace": tr})
+			r.Violate("b/final-image-depends-on-interruption-pattern", map[string]any{"shape": sp.Name, "trace": tr, "class": wantCls})
+		}
+		if !sameStripped {
+			r.Violate("b/no-op-prune-final-differs-from-no-prune-final", map[string]any{"shape": sp.Name, "trace": tr})
 		}
 	}
+afterFinal:
 	bc.mu.Lock()
 	bc.fin[fh]++
 	bc.mu.Unlock()
@@ -583,7 +687,7 @@ func exploreItem(bc *bCtx, it bItem, maxDepth int, failInj bool) {
 	}
 	// 2. crash after every commit of that run (the image becomes a new start state)
 	for k := 1; k < n; k++ {
-		sh.add(o.d.Image(k), st.depth+1, fmt.Sprintf("%s crash-after-commit %d/%d", tr, k, n))
+		sh.add(o.d.Image(k), st.depth+1, fmt.Sprintf("%s crash-after-commit %d/%d", tr, k, n), taint)
 		r.Add("b_crash_images", 1)
 	}
 	// 3. cancellation at every commit and at every first read of an ingest range; 4. failed commit
@@ -630,7 +734,7 @@ func exploreItem(bc *bCtx, it bItem, maxDepth int, failInj bool) {
 		}
 		// every image that run went through is a possible durable state as well
 		for k := 1; k <= oi.d.Commits(); k++ {
-			sh.add(oi.d.Image(k), st.depth+1, fmt.Sprintf("%s [image %d/%d]", tri, k, oi.d.Commits()))
+			sh.add(oi.d.Image(k), st.depth+1, fmt.Sprintf("%s [image %d/%d]", tri, k, oi.d.Commits()), taint)
 		}
 	})
 }
